@@ -148,3 +148,40 @@ def r_norm_view(ctx: RuleCtx, col: Collector):
                 "eigenvectors scaled in place through a view of the returned matrix",
                 f"the scaling is applied to something that is not a column view of '{qname}': the returned eigenvectors "
                 f"are not normalised / sign-fixed")
+
+
+@rule("R-SHIFT-PAIR", floor=2)
+def r_shift_pair(ctx: RuleCtx, col: Collector):
+    """Sparse shift-and-invert: the operator handed to the eigensolver as OPinv must be the inverse of (A - sigma*M) for
+    the very M (and sigma) that are passed to the eigensolver: the matrix subtracted in the shift is the one passed as
+    M=, and the operator's solver is the one updated with the shifted matrix."""
+    m = ctx.model
+    es, resp = _eig(ctx)
+    f = None
+    for g in _af(ctx, es).closure(resp):
+        if any(isinstance(x, ast.Call) and isinstance(x.func, ast.Attribute) and x.func.attr in ("eigsh", "eigs") for x in ast.walk(g.node)):
+            f = g
+    if f is None:
+        raise AnalysisError("sparse eigensolver call not found")
+    selfn = m.self_name(f)
+    shift = None
+    for n in ast.walk(f.node):
+        if isinstance(n, ast.Assign) and isinstance(n.value, ast.BinOp) and isinstance(n.value.op, ast.Sub) and \
+                isinstance(n.value.right, ast.BinOp) and isinstance(n.value.right.op, ast.Mult) and "sigma" in norm(n.value.right):
+            shift = n
+    if shift is None:
+        raise AnalysisError(f"{f.short}: shifted matrix (A - sigma*M) not found")
+    mat = [x for x in (shift.value.right.left, shift.value.right.right) if "sigma" not in norm(x)]
+    a_in_shift = norm(shift.value.left)
+    m_in_shift = norm(mat[0]) if mat else "?"
+    for call in [x for x in ast.walk(f.node) if isinstance(x, ast.Call) and isinstance(x.func, ast.Attribute) and x.func.attr in ("eigsh", "eigs")]:
+        mk = [k.value for k in call.keywords if k.arg == "M"]
+        a0 = norm(call.args[0]) if call.args else "?"
+        construct = f"{call.func.attr}({a0}, M={U(mk[0]) if mk else None}, sigma=...) vs shift '{stmt_key(shift)}'"
+        if mk and norm(mk[0]) == m_in_shift and a0 == a_in_shift:
+            col.ok(where_of(f), f.rel, line_of(call), construct, "same pencil in the shift and in the eigensolver")
+        else:
+            col.bad(where_of(f), f.rel, line_of(call), construct,
+                    f"the shift-invert operator is built from {a_in_shift} - sigma*{m_in_shift} but the eigensolver is called for the "
+                    f"pencil ({a0}, {U(mk[0]) if mk else 'I'}): OPinv is not the inverse of (A - sigma*M), so the returned pairs are "
+                    f"not eigenpairs of the requested problem")
